@@ -41,6 +41,15 @@ def cases(tier, seed):
             p = shapes.place(sh, shapes.CONTEXT[cid])
             if p:
                 out.append(p)
+    # the systematic families, where the wire form is always a string: string constraints, allOf refinements of strings, unions of strings
+    fam = shapes.string_family(tier) + [x for x in shapes.refine_family(tier) if x.get("strish")]
+    fam += [x for x in shapes.union_family("thorough") if x["tg"]["un_comb"] == "oneOf" and x["tg"]["un_types"] == "string"]
+    for sh in fam:
+        sh = dict(sh, strish=True)
+        for cid in (["def"] if tier == "quick" else ["def", "ref_alias"]):
+            p = shapes.place(sh, shapes.CONTEXT[cid])
+            if p:
+                out.append(p)
     names = list(ALTS) if tier != "quick" else ["uuid", "enum", "max2", "email", "host", "plain", "refnew"]
     combos = list(itertools.permutations(names, 2))
     if tier != "quick":
